@@ -301,8 +301,14 @@ def extract_loop(fn: ast.FunctionDef):
                     info["seedAreasFrom"] = attr
                     info["seedAreasName"] = tgt.id
                     continue
-                if _call_name(st.value) in ("np.zeros_like", "numpy.zeros_like") and st.value.args \
+                if _call_name(st.value) in ("np.zeros_like", "numpy.zeros_like") and len(st.value.args) == 1 \
                         and _name(st.value.args[0]) in arrays:
+                    # the velocity array holds floats whatever the type of the prescribed speed is (the model's carrier is a
+                    # real / Float): `dtype=float` (or none: the array then has the float dtype of the areas)
+                    for kw in st.value.keywords:
+                        if kw.arg != "dtype" or (_name(kw.value) != "float" and
+                                                 pyexpr.attr_path(kw.value) not in (["np", "float64"], ["numpy", "float64"])):
+                            raise Untranslatable(f"velocity array: {ast.unparse(st.value)[:80]}")
                     arrays[tgt.id] = ("zeros",)
                     prelude.append("zeros")
                     info["velName"] = tgt.id
@@ -431,6 +437,84 @@ def extract_loop(fn: ast.FunctionDef):
     return info
 
 
+def extract_roll_passes(cls: ast.ClassDef, self_name="self"):
+    """the property `PassSequence.roll_passes`:  `return list(u for u in self._subunits if isinstance(u, BaseRollPass))`
+    (generator expression or list comprehension, with or without `list(...)`) as the ONLY statement -> PassesShape fields"""
+    fn = None
+    for f in cls.body:
+        if isinstance(f, ast.FunctionDef) and f.name == "roll_passes":
+            if not any(_name(d) == "property" for d in f.decorator_list) or len(f.decorator_list) != 1:
+                raise Untranslatable("roll_passes is not a plain property")
+            if fn is not None:
+                raise Untranslatable("roll_passes defined twice")
+            fn = f
+    if fn is None:
+        raise Untranslatable("PassSequence.roll_passes not found")
+    for st in cls.body:
+        # a setter / class attribute of that name would be state next to the unit list
+        if isinstance(st, (ast.Assign, ast.AnnAssign)):
+            tg = st.targets if isinstance(st, ast.Assign) else [st.target]
+            if any(_name(t) == "roll_passes" for t in tg):
+                raise Untranslatable("class attribute roll_passes")
+    sn = fn.args.args[0].arg
+    body = [s_ for s_ in fn.body if not (isinstance(s_, ast.Expr) and isinstance(s_.value, ast.Constant))]
+    if len(body) != 1 or not isinstance(body[0], ast.Return) or body[0].value is None:
+        raise Untranslatable("roll_passes: the body is not a single return statement (the list is not built anew on every access)")
+    v = body[0].value
+    if isinstance(v, ast.Call) and _name(v.func) == "list" and len(v.args) == 1 and not v.keywords:
+        v = v.args[0]
+    if not (isinstance(v, (ast.GeneratorExp, ast.ListComp)) and len(v.generators) == 1):
+        raise Untranslatable(f"roll_passes: {ast.unparse(v)[:80]}")
+    g = v.generators[0]
+    src = pyexpr.attr_path(g.iter)
+    if not (_name(g.target) and _name(v.elt) == g.target.id and src and src[0] == sn and len(src) == 2 and not g.is_async):
+        raise Untranslatable(f"roll_passes: {ast.unparse(v)[:80]}")
+    if len(g.ifs) != 1:
+        raise Untranslatable("roll_passes: filter")
+    t = g.ifs[0]
+    if not (isinstance(t, ast.Call) and _name(t.func) == "isinstance" and len(t.args) == 2 and not t.keywords
+            and _name(t.args[0]) == g.target.id and _name(t.args[1])):
+        raise Untranslatable(f"roll_passes: filter {ast.unparse(t)[:80]}")
+    return {"source": src[1], "filter": t.args[1].id, "fresh": True}
+
+
+INIT = "__init__.py"
+
+
+def extract_root_hooks(repo=None, name="velocity"):
+    """pyroll/core/__init__.py: every hook `<Class path>.<name>` registered in `root_hooks` at module level (the hooks whose
+    results are evaluated and written explicitly in every solve iteration) -> sorted dotted names as written in the source"""
+    path = os.path.join(repo or REPO, "pyroll", "core", INIT)
+    tree = ast.parse(open(path).read())
+    found = []
+    for node in ast.walk(tree):
+        if isinstance(node, (ast.Assign, ast.AugAssign, ast.Delete)):
+            tg = node.targets if not isinstance(node, ast.AugAssign) else [node.target]
+            for t in tg:
+                if _name(t) == "root_hooks" or (isinstance(t, ast.Subscript) and _name(t.value) == "root_hooks"):
+                    raise Untranslatable(f"root_hooks is rebound / edited: {ast.unparse(node)[:80]}")
+        if not isinstance(node, ast.Call):
+            continue
+        fp = pyexpr.attr_path(node.func)
+        if not (fp and fp[0] == "root_hooks"):
+            continue
+        if len(fp) != 2 or node.keywords:
+            raise Untranslatable(f"root hook registration {ast.unparse(node)[:80]}")
+        if fp[1] == "extend" and len(node.args) == 1 and isinstance(node.args[0], (ast.List, ast.Tuple)):
+            elts = node.args[0].elts
+        elif fp[1] in ("add", "append") and len(node.args) == 1:
+            elts = node.args
+        else:
+            raise Untranslatable(f"root hook registration {ast.unparse(node)[:80]}")
+        for e in elts:
+            ep = pyexpr.attr_path(e)
+            if not ep or len(ep) < 2:
+                raise Untranslatable(f"root hook entry {ast.unparse(e)[:80]}")
+            if ep[-1] == name:
+                found.append(".".join(ep))
+    return sorted(found)
+
+
 def extract(repo=None):
     """-> {"backward": info, "forward": info}"""
     path = os.path.join(repo or REPO, "pyroll", "core", SEQ)
@@ -509,6 +593,25 @@ def emit(ctx):
         lines.append(f"def {pre}_tol_e : Expr := {pyexpr.lean_expr(info['test']['tol'])}")
         lines.append(f"def {key}_shape : Velo.Shape :=\n    {lean_shape(info)}")
         lines.append("")
+    try:
+        tree = ast.parse(open(os.path.join(REPO, "pyroll", "core", SEQ)).read())
+        cls = next(n for n in ast.walk(tree) if isinstance(n, ast.ClassDef) and n.name == "PassSequence")
+        rp = extract_roll_passes(cls)
+    except (Untranslatable, StopIteration) as ex:
+        ctx.tie_breaks.append(f"translator: pyroll/core/{SEQ}: PassSequence.roll_passes left the recognised pattern: {ex}")
+        rp = {"source": "<unrecognised>", "filter": "<unrecognised>", "fresh": False}
+    lines.append(f"/-- pyroll/core/{SEQ} `PassSequence.roll_passes` -/")
+    lines.append("def roll_passes_shape : Velo.PassesShape :=\n    { source := %s, filterClass := %s, fresh := %s }" % (
+        pyexpr.lean_str(rp["source"]), pyexpr.lean_str(rp["filter"]), "true" if rp["fresh"] else "false"))
+    lines.append("")
+    try:
+        roots = extract_root_hooks()
+    except (Untranslatable, OSError, SyntaxError) as ex:
+        ctx.tie_breaks.append(f"translator: pyroll/core/{INIT}: root hook list left the recognised pattern: {ex}")
+        roots = ["<unrecognised>"]
+    lines.append(f"/-- pyroll/core/{INIT}: the `velocity` hooks among `root_hooks` (sorted) -/")
+    lines.append(f"def root_velocity_hooks : List String := {_lean_strs(roots)}")
+    lines.append("")
     idx = hookimpl_index(sorted({rel for (_, rel, _) in HOOKS}))
     found, table = {}, []
     for (name, rel, fn) in HOOKS:
@@ -539,5 +642,7 @@ def emit(ctx):
     lines.append("end Gen.C19")
     text = "\n".join(lines) + "\n"
     changed = pyexpr.write_if_changed(os.path.join(LEAN_DIR, "PyrollModel", "Gen", "C19.lean"), text)
-    ctx.notes.setdefault("generated", {})["Gen/C19.lean"] = {"defs": 8 + len(HOOKS), "rewritten": changed}
+    ctx.notes.setdefault("generated", {})["Gen/C19.lean"] = {"defs": 10 + len(HOOKS), "rewritten": changed}
+    if loops is not None:
+        loops["root_velocity_hooks"], loops["roll_passes"] = roots, rp
     return loops, found
